@@ -1,5 +1,6 @@
 //! Types related to a time zone.
 
+#[cfg(not(feature = "verif-hooks"))]
 use std::fs::{self, File};
 use std::io::{self, Read};
 use std::path::{Path, PathBuf};
@@ -8,6 +9,8 @@ use std::{cmp::Ordering, fmt, str};
 use super::rule::{AlternateTime, TransitionRule};
 use super::{DAYS_PER_WEEK, Error, SECONDS_PER_DAY, parser};
 use crate::NaiveDateTime;
+#[cfg(feature = "verif-hooks")]
+use crate::offset::local::verif_seam::fs::{self, File};
 #[cfg(target_env = "ohos")]
 use crate::offset::local::tz_info::parser::Cursor;
 
@@ -611,6 +614,14 @@ impl LocalTimeType {
     }
 
     pub(super) const UTC: LocalTimeType = Self { ut_offset: 0, is_dst: false, name: None };
+}
+
+#[cfg(feature = "verif-hooks")]
+impl LocalTimeType {
+    /// Time zone abbreviation (verification accessor)
+    pub(super) fn verif_name(&self) -> Option<&str> {
+        self.name.as_ref().map(|name| name.as_ref())
+    }
 }
 
 /// Open the TZif file corresponding to a TZ string
